@@ -139,6 +139,16 @@ def run(m: Model, r: Report, tier: str) -> None:
                 miss = [fold_code(v) for v in assigned_codes(tifs[0].orelse)]
                 detail = f"test {ast.unparse(tifs[0].test)} -> {hit}, else -> {miss}"
                 ok = cls_arg in ("tuple(self.CATCHED_EXCEPTIONS)", "(*self.CATCHED_EXCEPTIONS,)") and hit == [74] and miss == [70]
+            elif not fors and len([n for n in h.body if isinstance(n, ast.If) and isinstance(n.test, ast.Call) and ast.unparse(n.test.func) == "any"]) == 1:
+                # `if any(isinstance(e, t) for t in self.CATCHED_EXCEPTIONS): ... else: ...`
+                aif = next(n for n in h.body if isinstance(n, ast.If) and isinstance(n.test, ast.Call) and ast.unparse(n.test.func) == "any")
+                g_ = aif.test.args[0] if aif.test.args else None
+                shape_ok = isinstance(g_, (ast.GeneratorExp, ast.ListComp)) and len(g_.generators) == 1 and not g_.generators[0].ifs and isinstance(g_.generators[0].target, ast.Name) \
+                    and ast.unparse(g_.generators[0].iter) == "self.CATCHED_EXCEPTIONS" and ast.unparse(g_.elt) == f"isinstance({h.name}, {g_.generators[0].target.id})"
+                hit = [fold_code(v) for v in assigned_codes(aif.body)]
+                miss = [fold_code(v) for v in assigned_codes(aif.orelse)]
+                detail = f"test {ast.unparse(aif.test)} -> {hit}, else -> {miss}"
+                ok = (hit == [74] and miss == [70]) if shape_ok else None
             elif any(isinstance(n, ast.Compare) and "CATCHED_EXCEPTIONS" in ast.unparse(n) and ("type(" in ast.unparse(n) or "__class__" in ast.unparse(n)) for n in ast.walk(h)):
                 ok = False
                 detail = "the exception's exact type is looked up in CATCHED_EXCEPTIONS (subclasses such as ConnectionResetError for ConnectionError are not recognised)"
@@ -399,7 +409,15 @@ def run(m: Model, r: Report, tier: str) -> None:
     r.check(len(pre_calls) == 1 and in_try_body(pre_calls[0]) and len(run_calls_) == 1 and pre_calls[0].lineno < run_calls_[0].lineno, "R9", f"{ep.qualname}#pre-hook-guarded",
             "the pre-hook must run before run() inside the guarded region (an exception out of it is a failure of this run like any other)", loc=ep.loc)
     # (h) the lock is taken iff a lock file is configured
-    acq_st = [s_ for s_ in ast.walk(ep.node) if isinstance(s_, ast.Expr) and "self._aquire_flock()" in ast.unparse(s_)]
+    # the lock methods by role (private names may be corrected / renamed): the method of the command's lock mix-in that takes LOCK_EX, the one that gives LOCK_UN
+    def _flock_method(flag: str) -> str:
+        cands = sorted({f_.name for c_ in m.classes.values() if c_.module.name == ep.module.name for f_ in c_.methods.values()
+                        if any(isinstance(x, ast.Attribute) and x.attr == flag for x in ast.walk(f_.node))})
+        if len(cands) != 1:
+            raise AnalysisError(f"lock method using {flag} not found ({cands})")
+        return cands[0]
+    ACQ, REL = _flock_method("LOCK_EX"), _flock_method("LOCK_UN")
+    acq_st = [s_ for s_ in ast.walk(ep.node) if isinstance(s_, ast.Expr) and f"self.{ACQ}()" in ast.unparse(s_)]
     if len(acq_st) == 1:
         bad = truth_table(path_condition(ep.node, acq_st[0]), {"self.config.lock_file": [None, "/tmp/l"]}, lambda a: a["self.config.lock_file"] is not None)
         r.check(not bad, "R9", f"{ep.qualname}#lock-condition", f"the lock is acquired on {bad}", loc=ep.loc)
@@ -428,8 +446,8 @@ def run(m: Model, r: Report, tier: str) -> None:
 
     # ---------------------------------------------------------------- R5
     g = CFG(ep.node)
-    acq = [n for n in g.nodes.values() if n.kind == "stmt" and n.ast is not None and "self._aquire_flock()" in ast.unparse(n.ast)]
-    rel = {n.id for n in g.nodes.values() if n.ast is not None and n.kind == "stmt" and "self._release_flock()" in ast.unparse(n.ast)}
+    acq = [n for n in g.nodes.values() if n.kind == "stmt" and n.ast is not None and f"self.{ACQ}()" in ast.unparse(n.ast)]
+    rel = {n.id for n in g.nodes.values() if n.ast is not None and n.kind == "stmt" and f"self.{REL}()" in ast.unparse(n.ast)}
     if not acq or not rel:
         raise AnalysisError("entry_point: flock acquire/release not found")
     for a in acq:
